@@ -15,6 +15,12 @@ CLAIMED = {
             "floats modelled as reals; pi = the double math.pi as a rational; angles, shifts in [-2pi,2pi]; round(x,n) idealised "
             "as exact half-even rounding for n in {None,0..3}", "2/C16"),
 }
+CLAIMED["C17"] = (
+    "TrafficLightCycle.get_state_at_time_step / cycle_init_timesteps / TrafficLight.get_state_at_time_step are executed "
+    "symbolically (real numpy cumsum/insert/argmax on object arrays) for cycles of n elements with durations, offset and time "
+    "step as unbounded solver integers; z3 proves the window specification, periodicity and agreement on every path.",
+    "n <= 4 (quick) / n <= 6 (thorough) cycle elements; durations >= 1, offset >= 0; colours concrete per position; "
+    "integer modulo by the symbolic total encoded with quotient/remainder axioms", "2/C17")
 NOT_YET = {}
 
 props = [json.loads(l) for l in open(os.path.join(ROOT, "properties.jsonl"))]
